@@ -26,7 +26,7 @@ static size_t utf8_nfkd_lazy(const char* str, polyseed_str norm) {
     size_t size = 0;
     const char* pos = str;
     while (*pos != '\0' && size < POLYSEED_STR_SIZE - 1) {
-        if (*pos < 0) { /* non-ASCII */
+        if (*pos & 0x80) { /* non-ASCII */
             return polyseed_deps.u8_nfkd(str, norm);
         }
         norm[size] = *pos;
